@@ -7,8 +7,12 @@ import (
 	"fmt"
 	"hash/fnv"
 	"os"
+	"regexp"
+	"runtime"
 	"strconv"
+	"strings"
 	"testing"
+	"time"
 
 	"verif/harness/internal/ev"
 	"verif/harness/internal/stack"
@@ -75,9 +79,57 @@ func Check(t *testing.T, n int, prop func(*rapid.T)) {
 	rapid.Check(t, prop)
 }
 
+// livenessIsTheProperty: checks whose property says that requests end (C14),
+// that reads keep being served (C17), that concurrent requests do not wedge
+// the cache (C07) or that a backend fault degrades to a miss or an error
+// (C12). For them a request that sits on the cache's mutex for minutes IS the
+// violation; for every other check it only means that nothing can be decided.
+var livenessIsTheProperty = map[string]bool{"C07": true, "C12": true, "C14": true, "C17": true}
+
+var stuckRE = regexp.MustCompile(`^goroutine \d+ \[(sync\.Mutex\.Lock|sync\.RWMutex\.R?Lock|semacquire), (\d+) minutes\]`)
+
+// watchdog ends the process when a goroutine has been waiting for a mutex
+// inside the code under test for two minutes or more: such a run would
+// otherwise sit there until the test deadline and say nothing.
+func watchdog(id string) {
+	for {
+		time.Sleep(20 * time.Second)
+		buf := make([]byte, 1<<20)
+		for {
+			n := runtime.Stack(buf, true)
+			if n < len(buf) {
+				buf = buf[:n]
+				break
+			}
+			buf = make([]byte, 2*len(buf))
+		}
+		for _, g := range strings.Split(string(buf), "\n\n") {
+			m := stuckRE.FindStringSubmatch(g)
+			if m == nil {
+				continue
+			}
+			if mins, _ := strconv.Atoi(m[2]); mins < 2 {
+				continue
+			}
+			if !strings.Contains(g, "bazel-remote/v2/cache/disk.") && !strings.Contains(g, "bazel-remote/v2/server.") {
+				continue
+			}
+			ev.Flush()
+			if livenessIsTheProperty[id] {
+				fmt.Printf("a request has been waiting for a lock of the cache for %s minutes (a lock that is never released, or a deadlock): nothing is served any more\n%s\n", m[2], g)
+				fmt.Println("VERIF-TEST-EXIT 1 (watchdog)")
+				os.Exit(1)
+			}
+			fmt.Printf("VERIF-INFRA: a request has been waiting for a lock of the cache for %s minutes; this check cannot decide its property on such a tree\n%s\n", m[2], g)
+			os.Exit(2)
+		}
+	}
+}
+
 // Main is the TestMain body shared by all check packages.
 func Main(m *testing.M, id string) {
 	ev.Get(id)
+	go watchdog(id)
 	code := m.Run()
 	ev.Flush()
 	stack.Cleanup()
